@@ -88,41 +88,51 @@ def run(ctx):
             R.violation('a', 'R5', inst, 'ancillary:move-args', 'move sites at lines %s' % bad, move_sites[0][0].loc())
         else:
             R.ok('a', 'R5', inst, '%d site(s); the receiver type can only be produced by verify (clause b)' % len(move_sites), move_sites[0][0].loc())
-    # order inside each body that holds both an unpack and a verify: unpack (success) precedes verify
-    for rootname in sorted({g.root().name for g, c in ver_sites}):
-        rf = ws.find(rootname)
-        ctx.order('a', rf, ('download_unpack_file', DU), ('AncillaryVerifier::verify', [VER]))
-    bf = ctx.try_fn('a', DT + 'build_download_future')
-    if bf is not None:
-        # the coroutine holding the logic
-        for g in bf.family():
-            body = g.body
-            crt = ctx.call_sites(body, ['tokio::fs::create_dir', 'tokio::fs::create_dir::create_dir', 'tokio::fs::create_dir_all*'])
-            rm = ctx.call_sites(body, ['tokio::fs::remove_dir_all', 'tokio::fs::remove_dir_all::remove_dir_all'])
-            anc = ctx.call_sites(body, [DT + 'download_unpack_verify_ancillary'])
-            if not anc:
-                continue
-            problems = []
-            if not crt or not rm:
-                problems.append('create_dir sites %d, remove_dir_all sites %d' % (len(crt), len(rm)))
-            else:
-                # after the ancillary step was started, every return passes remove_dir_all
-                removed = {(c.bb, c.target) for c in rm}
-                rets = {bi for bi, b in enumerate(body.blocks) if b.term[0] == 'ret' and not b.cleanup}
-                for c in anc:
-                    if rets & body.reach([c.target], removed=removed):
-                        problems.append('a return is reachable after the ancillary step without removing the temporary directory')
-                # same directory created, used and removed
-                d_c = fn_origins(g, crt[0].args[0], True)
-                d_r = fn_origins(g, rm[0].args[0], True)
-                d_u = fn_origins(g, anc[0].args[1], True)
-                if not (has(d_c, 'call:*temp_ancillary_target_dir') and has(d_r, 'call:*temp_ancillary_target_dir') and has(d_u, 'call:*temp_ancillary_target_dir')):
-                    problems.append('created / used / removed directories are not the same temporary directory')
-                # the result of the step is what is returned (the removal does not mask a failure)
-            if problems:
-                R.violation('a', 'R2', 'build_download_future: temp dir created < ancillary step < removed on every exit', 'ancillary:tempdir', '; '.join(problems), bf.loc())
-            else:
-                R.ok('a', 'R2', 'build_download_future: temp dir created < ancillary step < removed on every exit', '', bf.loc())
+    # order inside each body that holds a verify: unpack (success) precedes verify (the body may be the fn, its coroutine, or an
+    # `async {}` block nested in it)
+    seen_bodies = set()
+    for g, c in ver_sites:
+        if id(g) in seen_bodies:
+            continue
+        seen_bodies.add(id(g))
+        rn = fn_short(g.root().name)
+        ctx.order('a', g, ('download_unpack_file', DU), ('AncillaryVerifier::verify', [VER]),
+                  _inst=('%s: download_unpack_file (success) precedes AncillaryVerifier::verify' % rn,
+                         'order:%s:download_unpack_file<AncillaryVerifier::verify' % rn))
+    # the temporary directory: created, and once created removed on every exit of the body that created it
+    CRT = ['tokio::fs::create_dir', 'tokio::fs::create_dir::create_dir', 'tokio::fs::create_dir_all*']
+    RM = ['tokio::fs::remove_dir_all', 'tokio::fs::remove_dir_all::remove_dir_all']
+    inst = 'temp dir created < ancillary step < removed on every exit'
+    holders = []
+    for g in lib:
+        crt = [c for c in ctx.call_sites(g.body, CRT) if has(deep_origins(ws, g, c.args[0], 'adapters', depth=2), TMP)]
+        if crt:
+            holders.append((g, crt))
+    if not holders:
+        R.missing('a', 'no create_dir of the temporary ancillary directory in mithril-client')
+    for g, crt in holders:
+        body = g.body
+        rm = [c for c in ctx.call_sites(body, RM) if has(deep_origins(ws, g, c.args[0], 'adapters', depth=2), TMP)]
+        problems = []
+        if not rm:
+            problems.append('create_dir sites %d, remove_dir_all sites of the same directory %d' % (len(crt), len(rm)))
+        else:
+            _, edges = ctx.success_edges_of(g, CRT, +1)
+            starts = {e[1] for e in edges} or {c.target for c in crt if c.target is not None}
+            removed = {(c.bb, c.target) for c in rm}
+            rets = {bi for bi, b in enumerate(body.blocks) if b.term[0] == 'ret' and not b.cleanup}
+            if rets & body.reach(sorted(starts), removed=removed):
+                problems.append('a return is reachable after the directory was created without removing it')
+            # the ancillary steps happen between: a verification / unpack site is under this body
+            under = {id(x) for x in g.root().family()}
+            if not any(id(vg) in under or any(id(h) in under for h in [vg.root()]) for vg, _ in ver_sites) and \
+                    not any(ctx.closure_sites(g.root(), [VER], depth=3) for _ in [0]):
+                problems.append('the verification does not happen under the body that owns the temporary directory')
+        rn = fn_short(g.root().name)
+        if problems:
+            R.violation('a', 'R2', '%s: %s' % (rn, inst), 'ancillary:tempdir', '; '.join(problems), g.loc())
+        else:
+            R.ok('a', 'R2', '%s: %s' % (rn, inst), '', g.loc())
 
     # ---- (b)
     ctx.only_constructors('b', VAM, [(VER + '*', 'the verification'), ('<' + VAM + ' as std::clone::Clone>::clone', 'derive(Clone) of an existing value')],
@@ -146,6 +156,8 @@ def run(ctx):
         body = lv.body
         sig = [c for c in body.calls() if any(glob_match('std::option::Option::ok_or', n) or glob_match('std::option::Option::ok_or_else', n) for n in c.names())
                and has(fn_origins(lv, c.args[0], True), 'call:' + MAN + 'signature')]
+        # ... or the Option returned by manifest.signature() is matched directly (let-else / match / if-let)
+        sig += [c for c in body.calls() if (MAN + 'signature') in c.names()]
         rem = set()
         for c in sig:
             rem |= track_result(body, c.dest[0], +1).success_edges
@@ -208,38 +220,34 @@ def run(ctx):
         else:
             R.ok('c', 'R5', 'move_to_final_location moves exactly the manifest-listed files', '%d rename site(s)' % len(ren), m.loc())
 
-    # ---- (d)
-    if bf is not None:
-        found = False
-        for g in bf.family():
-            body = g.body
-            for c in ctx.call_sites(body, [DT + 'download_unpack_file']):
-                found = True
-                tgt = fn_origins(g, c.args[1], 'adapters')
-                direct = has(tgt, 'pty:DownloadTask.target_dir')
-                # the post-download clean-up: which directories does it scan?
-                rf = ws.find_all(UDF + 'ExpectedFilesAfterDownload::remove_unexpected_files')
-                scans_whole = False
-                scan_desc = []
-                for r in rf:
-                    for h in r.family():
-                        for cc in h.body.calls():
-                            if any(glob_match('std::fs::read_dir', n) for n in cc.names()):
-                                og = fn_origins(h, cc.args[0], True)
-                                joined = has(og, 'call:std::path::Path::join') or has(og, 'call:std::path::PathBuf::join')
-                                scan_desc.append('read_dir(%s)' % ('target.join(IMMUTABLE_DIR)' if joined else 'target'))
-                                if not joined:
-                                    scans_whole = True
-                inst = 'immutable archives: unpack target is a temp dir, or the clean-up scans the whole target directory'
-                if direct and not scans_whole:
-                    R.violation('d', 'R5', inst, 'immutable:unpack-into-target',
-                                'DownloadKind::Immutable archives are unpacked directly into self.target_dir (the database directory) and '
-                                'ExpectedFilesAfterDownload::remove_unexpected_files only scans %s: archive entries outside immutable/ (ledger, volatile, '
-                                'bootstrap markers) survive in the restored database' % sorted(set(scan_desc)), bf.loc())
-                else:
-                    R.ok('d', 'R5', inst, '', bf.loc())
-        if not found:
-            R.violation('d', 'R5', 'immutable archives: the unpack site exists', 'immutable:unpack-site', 'no download_unpack_file call in build_download_future', bf.loc())
+    # ---- (d)  every unpack site that is not the ancillary one (its directory is not the temporary directory)
+    other_sites = [(g, c) for g in lib for c in g.body.calls() if any(n in c.names() for n in DU)
+                   and not any(has(deep_origins(ws, g, a_, True, depth=2), TMP) for a_ in c.args)]
+    if not other_sites:
+        R.violation('d', 'R5', 'immutable archives: the unpack site exists', 'immutable:unpack-site',
+                    'no download_unpack_file call outside the ancillary flow in mithril-client', None)
+    for g, c in other_sites:
+        tgt = deep_origins(ws, g, c.args[1], 'adapters', depth=2)
+        direct = has(tgt, 'pty:DownloadTask.target_dir')
+        # the post-download clean-up: which directories does it scan?
+        rf = ws.find_all(UDF + 'ExpectedFilesAfterDownload::remove_unexpected_files')
+        scans_whole = False
+        scan_desc = []
+        for r in rf:
+            for h, cc in ctx.closure_sites(r, ['std::fs::read_dir'], depth=3):
+                og = fn_origins(h, cc.args[0], True)
+                joined = has(og, 'call:std::path::Path::join') or has(og, 'call:std::path::PathBuf::join')
+                scan_desc.append('read_dir(%s)' % ('target.join(IMMUTABLE_DIR)' if joined else 'target'))
+                if not joined:
+                    scans_whole = True
+        inst = 'immutable archives: unpack target is a temp dir, or the clean-up scans the whole target directory'
+        if direct and not scans_whole:
+            R.violation('d', 'R5', inst, 'immutable:unpack-into-target',
+                        'DownloadKind::Immutable archives are unpacked directly into self.target_dir (the database directory) and '
+                        'ExpectedFilesAfterDownload::remove_unexpected_files only scans %s: archive entries outside immutable/ (ledger, volatile, '
+                        'bootstrap markers) survive in the restored database' % sorted(set(scan_desc)), g.loc())
+        else:
+            R.ok('d', 'R5', inst, '', g.loc())
 
 
 # ---------------------------------------------------------------- added after seed C19-2
